@@ -1,5 +1,5 @@
-(** C01 -- answers are those of depth-first, left-to-right SLD resolution.
-    Property theorems only (closed by [exact]); see DESIGN.md section 5 C01
+(** C03 -- answers are those of depth-first, left-to-right SLD resolution.
+    Property theorems only (closed by [exact]); see DESIGN.md section 5 C03
     for the full statement and for what is still missing. *)
 From Coq Require Import ZArith Bool List String.
 From PV Require Import Model.Term Model.Unify Model.Clause Model.Machine Proofs.Promise Proofs.Trampoline.
@@ -8,15 +8,15 @@ Open Scope Z_scope.
 
 (** Alternatives are discarded only by a cut, and a cut whose parent is on the
     stack discards exactly the frames above and including that parent. *)
-Theorem C01_pop_until_found :
+Theorem C03_pop_until_found :
   forall c above p below, stands_for c p = true -> forallb (fun q => negb (stands_for c q)) above = true ->
     pop_until c (above ++ p :: below) = below.
 Proof. exact pop_until_found. Qed.
-Print Assumptions C01_pop_until_found.
+Print Assumptions C03_pop_until_found.
 
-Theorem C01_pop_until_suffix : forall c s, exists pre, s = pre ++ pop_until c s.
+Theorem C03_pop_until_suffix : forall c s, exists pre, s = pre ++ pop_until c s.
 Proof. exact pop_until_suffix. Qed.
-Print Assumptions C01_pop_until_suffix.
+Print Assumptions C03_pop_until_suffix.
 
 (** The trampoline (Promise.Force with its explicit stack, child, popUntil and
     recover) computes the compositional depth-first semantics [Run]: the outcome
@@ -24,13 +24,13 @@ Print Assumptions C01_pop_until_suffix.
     wins, a cut prunes to its parent, an error unwinds to the innermost frame
     whose handler accepts it -- resumed on the frames below.  For every stack,
     every state, every program and every amount of fuel that suffices. *)
-Theorem C01_force_is_depth_first :
+Theorem C03_force_is_depth_first :
   forall fuel stack st r st', force fuel stack st = (r, st') -> r <> FOutOfFuel -> Run stack st r st'.
 Proof. exact (fun fuel => proj1 (force_sound fuel)). Qed.
-Print Assumptions C01_force_is_depth_first.
+Print Assumptions C03_force_is_depth_first.
 
 (** non-vacuity: a concrete run of the machine that is not out of fuel *)
-Example C01_run_example :
+Example C03_run_example :
   exists r st', force 50 [mkP 7 [ThUnify (Var 0) (Int 1) KTop empty_env] false None None None false None None]
                       (init_state [] 100 [Var 0] 5 None) = (r, st') /\ r = FFalse /\ s_answers st' = [[Int 1]].
 Proof. eexists _, _. split; [vm_compute; reflexivity | split; reflexivity]. Qed.
